@@ -1571,7 +1571,12 @@ class _NP:
             return k == "float"
         raise Unsupported("issubdtype(%s)" % name)
 
-    def interp(self, x, xp, fp):
+    def interp(self, x, xp, fp, left=None, right=None, period=None):
+        if left is not None or right is not None or period is not None:
+            raise Unsupported("np.interp with left / right / period: outside the modular contract (D26 covers the default continuation)")
+        return self._interp_default(x, xp, fp)
+
+    def _interp_default(self, x, xp, fp):
         """D26 (assumed contract of the dependency): np.interp(x, xp, fp)[i] is a function of x[i], xp and fp only - the piecewise-linear
         interpolant through (xp, fp), constant beyond the ends.  Modular encoding: for xp = np.linspace(a, b, m) and fp = row r of a
         2-d buffer B the element is INTERP_B(x[i], a, b, m, r) with INTERP_B uninterpreted; other argument forms are not supported."""
